@@ -27,6 +27,8 @@ type RpcDesc struct {
 	Rpc     string
 	Request string
 	Fields  []string
+	// Repeated lists the fields of the request message declared `repeated`
+	Repeated []string
 }
 
 func (w *World) strValue(e ast.Expr) string {
@@ -230,13 +232,17 @@ func protoTokens(src string) []string {
 type protoFile struct {
 	rpcs     []RpcDesc // Fields not yet filled
 	messages map[string][]string
+	// repeated: per message, its fields declared `repeated`; repeatedFields: scratch while
+	// a message body is being parsed
+	repeated       map[string][]string
+	repeatedFields map[string]bool
 }
 
 func lastComponent(s string) string { return s[strings.LastIndex(s, ".")+1:] }
 
 func parseProto(src string) (*protoFile, error) {
 	t := protoTokens(src)
-	pf := &protoFile{messages: map[string][]string{}}
+	pf := &protoFile{messages: map[string][]string{}, repeated: map[string][]string{}, repeatedFields: map[string]bool{}}
 	i := 0
 	// skipBalanced: t[i] == "{" ; returns index after the matching "}"
 	skipBalanced := func(i int) int {
@@ -328,6 +334,9 @@ func parseProto(src string) (*protoFile, error) {
 					return j, fmt.Errorf("cannot find a field name in statement starting at %q", t[i])
 				}
 				*fields = append(*fields, name)
+				if t[i] == "repeated" {
+					pf.repeatedFields[name] = true
+				}
 				i = j + 1
 			}
 		}
@@ -340,6 +349,14 @@ func parseProto(src string) (*protoFile, error) {
 			return j, fmt.Errorf("message %s: %v", name, err)
 		}
 		pf.messages[lastComponent(name)] = fields
+		rep := []string{}
+		for _, f := range fields {
+			if pf.repeatedFields[f] {
+				rep = append(rep, f)
+			}
+		}
+		pf.repeated[lastComponent(name)] = rep
+		pf.repeatedFields = map[string]bool{}
 		return j, nil
 	}
 	for i < len(t) {
@@ -409,6 +426,7 @@ func parseProto(src string) (*protoFile, error) {
 func (w *World) rpcs() []RpcDesc {
 	var out []RpcDesc
 	messages := map[string][]string{}
+	repeated := map[string][]string{}
 	var files []*protoFile
 	for _, rel := range []string{
 		"proto/fundraising/fundraising/v1/query.proto",
@@ -426,14 +444,22 @@ func (w *World) rpcs() []RpcDesc {
 		for k, v := range pf.messages {
 			messages[k] = v
 		}
+		for k, v := range pf.repeated {
+			repeated[k] = v
+		}
 	}
 	for _, pf := range files {
 		for _, r := range pf.rpcs {
 			if fs, ok := messages[r.Request]; ok {
 				r.Fields = fs
+				r.Repeated = repeated[r.Request]
+				if r.Repeated == nil {
+					r.Repeated = []string{}
+				}
 			} else {
 				// request message not defined in these files: no field can resolve
 				r.Fields = []string{}
+				r.Repeated = []string{}
 				r.Request = "<undefined " + r.Request + ">"
 			}
 			out = append(out, r)
